@@ -120,7 +120,7 @@ func run(c peng.Case) vt.Verdict {
 func TestProp(t *testing.T) {
 	vt.Main(t, vt.Spec[peng.Case]{
 		ID:           "C09",
-		Rule:         "rapid-generated workloads: 4-40 calls of all 20 kinds from 1-6 threads with barriers on 1-4 reachable servers, cancellations and deadlines at generated instants (1 us - 5 ms), thresholds up to the configuration size, correctable completion, slow quorum functions (up to 20 ms), slow/holding/early-releasing/failing handlers that always return, server streams that send up to 6 replies per node, GOMAXPROCS 1/2/4/default; after the workload drains, an RPC with a fresh context to every node must return that node's genuine reply (black-box probe; a failed probe is confirmed by two goroutine dumps 10 s apart); non-trivial (measured) = a stream was re-created after a cancelled send, or a stream call was abandoned with replies outstanding, or a slow quorum function",
+		Rule:         "rapid-generated workloads: 4-40 calls of all 20 kinds from 1-6 threads with barriers on 1-4 reachable servers, cancellations and deadlines at generated instants (1 us - 5 ms), thresholds up to the configuration size, correctable completion, slow quorum functions (up to 20 ms), slow/holding/early-releasing/failing handlers that always return, server streams that send up to 6 replies per node, GOMAXPROCS 1/2/4/default, in 1 of 4 cases a client send-size limit with requests too large to send, in half of the cases seeded jitter at the statement-level yield points of the instrumented runtime; after the workload drains, an RPC with a fresh context to every node must return that node's genuine reply (black-box probe; a failed probe is confirmed by two goroutine dumps 10 s apart); non-trivial (measured) = a stream was re-created after a cancelled send, or a stream call was abandoned with replies outstanding, or a slow quorum function",
 		Gen:          gen,
 		Run:          run,
 		TrackCurrent: true,
